@@ -352,6 +352,7 @@ def process_chunk(common, model_exe, grams, maxlen):
             elif l.startswith("MTOT "):
                 t = l.split()
                 by_gid[int(t[1])].mtot = int(t[2])
+                by_gid[int(t[1])].shape = int(t[3])
             elif l.startswith("MRUN "):
                 t = l.split()
                 by_gid[int(t[1])].mrun = t[2] if len(t) > 2 else ""
@@ -545,6 +546,8 @@ def run(ctx):
         real_sum = sum(e["pr"] for e in r.aent.values())
         if r.atot != real_sum:
             ds.append("analyze<G>(-1)=%s but the per-root problems of the real entries add up to %d" % (r.atot, real_sum))
+        if getattr(r, "shape", 0) != 1:
+            ds.append("the dumped table does not satisfy table_shape_ok (hypothesis of C11_sound on the must<...> helper of if_must nodes)")
         if (r.mtot == 0) != (r.atot == 0):
             ds.append("model problems(table)=%s (every table entry as root) vs analyze<G>(-1)=%s: zero-ness differs" % (r.mtot, r.atot))
         else:
